@@ -244,6 +244,7 @@ pub fn run(rep: &mut Report) {
         "correct rounding is NOT claimed for these functions, only the crate's stated bound".into(),
     ];
     super::run_corpus(rep, replay);
+    golden_section(rep);
     let stride = tier.pick(64, 8);
     let off = rep.cfg.seed % stride;
     for fi in 0..UNARY.len() {
@@ -269,6 +270,62 @@ pub fn run(rep: &mut Report) {
     });
     for fi in 0..BINARY.len() {
         rep.generated(&format!("{}: generated pairs", BINARY[fi].name), tier.pick(3_000_000, 40_000_000), pair_inputs, move |&(a, b), l| binary(fi, a, b, l));
+    }
+}
+
+/// committed mpmath vectors (golden/gen_c15.py): (a) the libm-based reference must contain the exactly
+/// rounded value — otherwise the run is "oracle inconsistent" (exit 2); (b) the crate is judged
+/// against the exact value at these points
+fn golden_section(rep: &mut Report) {
+    let path = format!("{}/golden/c15_ref.json", verif_dir());
+    let pts: Vec<(String, Vec<u64>, u64)> = match std::fs::read_to_string(&path).ok().and_then(|t| serde_json::from_str::<serde_json::Value>(&t).ok()) {
+        Some(v) => v["points"].as_array().map(|a| a.iter().filter_map(|p| {
+            let p = p.as_array()?;
+            let name = p[0].as_str()?.to_string();
+            let nums: Vec<u64> = p[1..].iter().filter_map(|x| x.as_u64()).collect();
+            let (args, want) = nums.split_at(nums.len() - 1);
+            Some((name, args.to_vec(), want[0]))
+        }).collect()).unwrap_or_default(),
+        None => vec![],
+    };
+    if pts.is_empty() {
+        rep.inconclusive.push(format!("{} missing or unreadable", path));
+        return;
+    }
+    let bad_oracle = std::sync::Mutex::new(Vec::<String>::new());
+    rep.fixed("golden mpmath vectors: libm reference contains the exact rounding; crate within its bound of the exact rounding", &pts, |(name, args, want), l| {
+        l.eval();
+        let (bound, y, got): (i64, f64, Result<u64, String>) = if let Some(fi) = UNARY.iter().position(|f| f.name == name) {
+            let f = &UNARY[fi];
+            let x = val(args[0]).unwrap_or(0.0);
+            (f.bound, (f.reff)(x), guard(|| (f.call)(P32E2::from_bits(args[0] as u32)).to_bits() as u64))
+        } else {
+            let fi = BINARY.iter().position(|f| f.name == name).unwrap_or(0);
+            let f = &BINARY[fi];
+            let (x, z) = (val(args[0]).unwrap_or(0.0), val(args[1]).unwrap_or(0.0));
+            (f.bound, (f.reff)(x, z), guard(|| (f.call)(P32E2::from_bits(args[0] as u32), P32E2::from_bits(args[1] as u32)).to_bits() as u64))
+        };
+        if distance(y, *want) != 0 {
+            bad_oracle.lock().unwrap().push(format!("{} {:x?}: mpmath {:#x}, libm {:e}", name, args, want, y));
+        }
+        l.nontrivial(hash_args(7777, args));
+        let op = format!("P32E2.{}", name);
+        match got {
+            Err(m) => Err(Viol::panic(op, args, format!("within {} encodings of {:#x}", bound, want), m)),
+            Ok(g) => {
+                let d = if g == 0x8000_0000 { i64::MAX } else { ((g as u32 as i32 as i64) - (*want as u32 as i32 as i64)).abs() };
+                l.label(err_label(d));
+                if d > bound {
+                    Err(Viol::wrong_s(op, args, format!("within {} encodings of {:#x} (exact rounding, mpmath)", bound, want), if d == i64::MAX { "NaR".into() } else { format!("{:#x} (error {})", g, d) }))
+                } else {
+                    Ok(())
+                }
+            }
+        }
+    });
+    let bad = bad_oracle.into_inner().unwrap();
+    if !bad.is_empty() {
+        rep.inconclusive.push(format!("oracle inconsistent: libm-based reference excludes the exactly rounded value at {} golden points, e.g. {}", bad.len(), bad[0]));
     }
 }
 
